@@ -1125,3 +1125,6 @@ M('C05', 'ttl-extension-of-untrusted-key-c05', ITS, "        extend_persistent_t
 # ---------------- seeded round 12: "currently trusted" is part of the outbound properties too ----------------
 MUTANTS.append(dict(next(m for m in MUTANTS if m['id'] == 'remove_trusted_chain-noop'), prop='C18', id='remove_trusted_chain-noop-c18', expect='C18.R7'))
 MUTANTS.append(dict(next(m for m in MUTANTS if m['id'] == 'remove_trusted_chain-noop'), prop='C05', id='remove_trusted_chain-noop-c05', expect='C05.R7'))
+
+# ---------------- seeded round 13: refusal clause of deploy_interchain_token ----------------
+M('C11', 'self-minter-refused-for-every-supply', ITS, '        let initial_minter = if initial_supply > 0 {', '        ensure!(\n            minter != Some(env.current_contract_address()),\n            ContractError::InvalidMinter\n        );\n\n        let initial_minter = if initial_supply > 0 {', 'C11.R6')
